@@ -22,6 +22,10 @@ pub struct Case {
     /// a node loading `.0` leaves at first and `.1` (never seen before) after a rewrite sent with the first burst
     #[serde(default)]
     pack: Option<(u16, u16)>,
+    /// the source drops its event sender after that many rounds of bursts (a watcher that dies): the reloader
+    /// thread ends, later hot_reload calls must degrade to no-ops
+    #[serde(default)]
+    watcher_dies_after: Option<u8>,
 }
 
 static STARTED: AtomicU64 = AtomicU64::new(0);
@@ -53,9 +57,9 @@ impl Prop for C08 {
 
     fn rule(&self) -> String {
         "cases = (1..6 compound nodes whose recipes load leaves and get_cached ANY node - themselves and each other, so that look-up cycles of every length arise - with generated busy work in the loader; \
-         1..8 threads each calling hot_reload 20..300 times; 0..3 threads loading and inserting concurrently; bursts of notified edits (single or batched) sent meanwhile; optionally a node that after a rewrite loads 100..1500 never-seen assets within one reload). \
+         1..8 threads each calling hot_reload 20..300 times; 0..3 threads loading and inserting concurrently; bursts of notified edits (single or batched) sent meanwhile; optionally a node that after a rewrite loads 100..1500 never-seen assets within one reload; in a fifth of the cases the source drops its event sender after 0..3 rounds (a watcher that dies: the reloader thread ends and the remaining calls must degrade to no-ops)). \
          Oracle: every call returns (the supervisor's blocked-state detector: all threads asleep with zero CPU while the case is unfinished = deadlock; never a timeout), the process does not abort (worker exit status), \
-         and the reloader never loads or reads while no thread is inside hot_reload (a caller released by somebody else's answer leaves its own request to be served later). \
+         and the reloader never loads or reads while no thread is inside hot_reload (a caller released by somebody else's answer leaves its own request to be served later), and after all callers returned a freshly notified change is still applied within 4000 calls (unless the watcher died). \
          non-trivial = at least two hot_reload requests were in flight at once, or a look-up cycle received an event; distinct = different canonical JSON"
             .into()
     }
@@ -96,11 +100,12 @@ impl Prop for C08 {
                     prop::collection::vec(prop::collection::vec((0u8..LEAVES.len() as u8, 0u16..1000), 1..6), 1..8),
                     any::<bool>(),
                     prop_oneof![3 => Just(None), 1 => (0u16..20, 100u16..1500).prop_map(Some)],
+                    prop_oneof![4 => Just(None), 1 => (0u8..4).prop_map(Some)],
                 )
             })
-            .prop_map(|(kinds, recipes, callers, iters, loaders, bursts, batched, pack)| {
+            .prop_map(|(kinds, recipes, callers, iters, loaders, bursts, batched, pack, watcher_dies_after)| {
                 let nodes = kinds.iter().enumerate().map(|(i, k)| NodeDef { kind: *k, id: format!("n{i}"), ops: recipes[i].clone() }).collect();
-                to_case(&Case { nodes, callers, iters, loaders, bursts, batched, pack })
+                to_case(&Case { nodes, callers, iters, loaders, bursts, batched, pack, watcher_dies_after })
             })
             .boxed()
     }
@@ -223,6 +228,9 @@ impl Prop for C08 {
                         src.send(&OwnedEntry::File("pack".to_string(), "n0".to_string()));
                     }
                     while !stop.load(SeqCst) && round < 200 {
+                        if c.watcher_dies_after == Some(round.min(255) as u8) {
+                            src.drop_sender();
+                        }
                         for burst in &c.bursts {
                             let mut notes = Vec::new();
                             for (l, v) in burst {
@@ -254,6 +262,17 @@ impl Prop for C08 {
         STARTED.fetch_add(1, SeqCst);
         cache.hot_reload();
         FINISHED.fetch_add(1, SeqCst);
+        // and the reloader still works: a change notified now is applied within a bounded number of calls
+        // (a reloader wedged by a caller that left with somebody else's answer would never apply it)
+        let mut w = w;
+        if c.watcher_dies_after.is_none() {
+            STARTED.fetch_add(1, SeqCst);
+            let alive = w.barrier_bounded(4000);
+            FINISHED.fetch_add(1, SeqCst);
+            if !alive {
+                out.fail("reloader-wedged", "after all callers returned, a notified change of a loaded asset was not applied by 4000 further hot_reload calls: the reloader no longer serves requests (calls return without their own request having been answered)");
+            }
+        }
         let idle = IDLE_ACTIVITY.load(SeqCst);
         if idle > 0 {
             out.fail("reloader-active-with-no-call-in-flight", format!("the reloader thread accessed the source {idle} time(s) while no thread was inside hot_reload: some caller was released before its own request was served"));
@@ -301,12 +320,15 @@ impl Prop for C08 {
         if c.pack.is_some() {
             out.label("many-new-assets-in-one-reload");
         }
+        if c.watcher_dies_after.is_some() {
+            out.label("watcher-died-while-callers-run");
+        }
         let _ = hot::LEAVES;
         drop(w);
         out
     }
 
     fn required_labels(&self) -> Vec<&'static str> {
-        vec!["requests-queued>=2", "lookup-cycle", "concurrent-loaders"]
+        vec!["requests-queued>=2", "lookup-cycle", "concurrent-loaders", "watcher-died-while-callers-run"]
     }
 }
